@@ -256,6 +256,26 @@ pub fn big_alphabet() -> Vec<Snippet> {
             v.push(vec![inst(Inst::Load(LOp::Lh, T2, SP, off))]);
         }
     }
+    // the zero register as destination: the instruction still reads its sources and x0 stays 0
+    for op in ALL_ROPS {
+        for (a, b) in [(T0, T1), (ZERO, T0), (T1, ZERO), (ZERO, ZERO)] {
+            v.push(vec![r(op, ZERO, a, b)]);
+        }
+    }
+    for op in ALL_IOPS {
+        for a in [ZERO, T0] {
+            v.push(vec![i(op, ZERO, a, 5)]);
+        }
+    }
+    v.push(vec![li(ZERO, 5)]);
+    v.push(vec![inst(Inst::Lui(ZERO, 1))]);
+    v.push(vec![inst(Inst::La(ZERO, "D".into()))]);
+    v.push(vec![inst(Inst::Load(LOp::Lw, ZERO, SP, 0))]);
+    v.push(vec![inst(Inst::Load(LOp::Lw, ZERO, T0, 0))]);
+    // jal with a link register other than ra: a jump that writes that register
+    for rd in [T0, T1, T2, S0, A0] {
+        v.push(vec![inst(Inst::Jal(rd, "J".into())), label("J")]);
+    }
     v.push(vec![inst(Inst::La(T2, "D".into()))]);
     v.push(vec![inst(Inst::Csr(CsrOp::Rw, T2, 64, T0))]);
     v.push(vec![inst(Inst::Csr(CsrOp::Rs, T2, 64, ZERO))]);
@@ -272,10 +292,10 @@ pub fn big_alphabet() -> Vec<Snippet> {
 /// Follow-up observers appended after the instruction under test so that the
 /// facts it produced are consulted by later transfers.
 fn observers() -> Snippet {
-    vec![lw(T1, 0, SP), r(ROp::Add, A0, T2, T1)]
+    vec![lw(T1, 0, SP), r(ROp::Add, A0, T2, T1), r(ROp::Add, A1, T0, ZERO), r(ROp::Or, 12, ZERO, S0)]
 }
 
-/// 12-symbol control-flow alphabet.
+/// 13-symbol control-flow alphabet.
 pub fn ctl_alphabet() -> Vec<Snippet> {
     vec![
         vec![label("L1")],
@@ -290,6 +310,7 @@ pub fn ctl_alphabet() -> Vec<Snippet> {
         vec![mv(A0, T0)],
         vec![addi(SP, SP, -4), sw(S0, 0, SP)],
         vec![lw(S0, 0, SP), addi(SP, SP, 4)],
+        vec![inst(Inst::Jal(T0, "L2".into()))],
     ]
 }
 
@@ -317,7 +338,7 @@ pub fn skeleton_fillers() -> Vec<Snippet> {
     ]
 }
 
-pub const N_SKELETONS: usize = 12;
+pub const N_SKELETONS: usize = 13;
 
 /// Build skeleton `k` with slots `s` (4 entries, indices into fillers).
 pub fn skeleton(k: usize, s: &[usize]) -> Program {
@@ -466,6 +487,25 @@ pub fn skeleton(k: usize, s: &[usize]) -> Program {
             b.push(ecall());
             b.extend(sl(1));
             b.extend(sl(2));
+            b.extend(sl(3));
+        }
+        12 => {
+            // a spill, then nested loops in which the stack position is unknown (memory facts
+            // keep changing after the register facts have settled)
+            b.extend(sl(0));
+            b.push(addi(SP, SP, -16));
+            b.push(sw(S1, 12, SP));
+            b.push(r(ROp::Sub, SP, SP, A0));
+            b.push(label("L1"));
+            b.push(addi(A1, A1, -1));
+            b.push(label("L2"));
+            b.push(br(BOp::Beq, 12, ZERO, "L3"));
+            b.extend(sl(1));
+            b.push(addi(12, 12, -1));
+            b.push(j("L2"));
+            b.push(label("L3"));
+            b.extend(sl(2));
+            b.push(br(BOp::Bne, A1, ZERO, "L1"));
             b.extend(sl(3));
         }
         _ => {
